@@ -1134,7 +1134,7 @@ def run(res, tier):
     res.rule("C06.11 a rebuilt tree is built like a fresh one: rebuild() starts from empty containers and creates every group through the same zero-initialising constructors, with the same arguments, as the tree's constructor (rules C13.3 / C13.4) - a group carried over from before the rebuild keeps the expansions of the previous execution")
     import c13
     sub13 = tbf.Result("C13")
-    c13.run(sub13, "quick")
+    ok13 = tbf.donor_run(res, c13, sub13)
     k13 = 0
     for i in sub13.instances:
         if i["rule"].startswith(("C13.3", "C13.4")):
@@ -1143,7 +1143,8 @@ def run(res, tier):
         if v["rule"].startswith(("C13.3", "C13.4")):
             res.violation("C06.11.rebuild-constructs-afresh", v["file"], v["function"], v["key"], v["line"], v["msg"])
     res.instance("C06.11.rebuild-constructs-afresh", "TbfTree::rebuild vs constructor", "src/core/tbftree.hpp", "%d construction / reset facts compared" % k13)
-    res.floor("C06.11", k13, 20, "construction facts of rebuild()")
+    if ok13:
+        res.floor("C06.11", k13, 20, "construction facts of rebuild()")
     res.rule("C06.5 group constructor: slot p stores orig(p) = groupInfo.getParticleIndex(p) and the data row of input particle orig(p), value by value")
     copy_provenance(facts, res)
     res.rule("C06.6 grid range (interval analysis, exact arithmetic, symbolic in box width and cells per dimension): every relative position of the closed box maps to a coordinate in [0, N-1]")
